@@ -349,7 +349,41 @@ pub fn sweep(tier: Tier, f: &(dyn Fn(&str, &Mutant) -> (Option<Viol>, String, bo
 
 pub fn run(tier: Tier) -> Run {
     let mut run = Run::new("C03", tier, "fault_enumeration");
-    let sw = sweep(tier, &check_mutant);
+    let mut sw = sweep(tier, &check_mutant);
+    // ---- every ordered pair of opcodes (minimal shapes, unmodified) as neighbours: what the parser does with Y must not
+    //      depend on which instruction X stands immediately in front of it
+    {
+        let g = golden();
+        let mins: Vec<(String, Vec<u32>)> = g.insts.iter().map(|gi| (gi.name.clone(), crate::model::enc(&universe::minimal(gi)))).collect();
+        let hdr = crate::model::header(0x0001_0600, 0, 4096);
+        let res: Vec<(u64, Vec<Viol>)> = mins
+            .par_iter()
+            .map(|(xn, xw)| {
+                let mut v = vec![];
+                let mut n = 0;
+                for (yn, yw) in &mins {
+                    let mut w = hdr.clone();
+                    w.extend(xw);
+                    w.extend(yw);
+                    n += 1;
+                    let m = Mutant { what: format!("pair:{}", yn), bytes: crate::model::words_to_bytes(&w) };
+                    if let (Some(x), _, _) = check_mutant(&format!("{}:then", xn), &m) {
+                        if v.len() < 3 {
+                            v.push(x);
+                        }
+                    }
+                }
+                (n, v)
+            })
+            .collect();
+        let mut pairs = 0;
+        for (n, v) in res {
+            pairs += n;
+            sw.viols.extend(v);
+        }
+        sw.evaluations += pairs;
+        sw.outcomes.insert("adjacent_opcode_pairs".into(), pairs);
+    }
     run.add_all(sw.viols);
     run.merge_outcomes(&sw.outcomes);
     run.set("evaluations", json!(sw.evaluations));
